@@ -118,9 +118,12 @@ AccStep(e) ==
   IF ~UseAcc \/ ~UseOracle \/ e.end # "ret" \/ sel[e.p] = "$none" THEN UNCHANGED acc
   ELSE LET inst == reg[e.p][sel[e.p]]
            par  == [k \in DOMAIN inst.par |-> M!ParVal(e.p, inst, k)]
+           vec  == [k \in DOMAIN inst.vec |-> M!VecVal(e.p, inst, k)]
+           ckey == <<inst.sol, par, vec, e.fn, e.sig, <<e.a, e.di, e.ni, e.pair>>, e.cb, IsKnown(inst.sol, e.fn)>>
+           c    == TLCGet(11)          \* what OracleAccept computed for this very event, if it ran
            x == IF \E k \in DOMAIN par : par[k] = "$unk" THEN <<>>
-                ELSE Expected(inst.sol, par, [k \in DOMAIN inst.vec |-> M!VecVal(e.p, inst, k)],
-                              e.fn, e.sig, <<e.a, e.di, e.ni, e.pair>>, e.cb, IsKnown(inst.sol, e.fn))
+                ELSE IF Len(c) = 2 THEN (IF c[1] = ckey THEN c[2] ELSE Expected(inst.sol, par, vec, e.fn, e.sig, <<e.a, e.di, e.ni, e.pair>>, e.cb, IsKnown(inst.sol, e.fn)))
+                ELSE Expected(inst.sol, par, vec, e.fn, e.sig, <<e.a, e.di, e.ni, e.pair>>, e.cb, IsKnown(inst.sol, e.fn))
            key == <<inst.sol, e.fn>>
        IN  IF Len(x) <= 1 \/ (IsKnown(inst.sol, e.fn) /\ ~HasVariant(inst.sol, e.fn)) THEN UNCHANGED acc
            ELSE LET b0 == NErrBits(NFromStr(e.ret), x, e.p)
@@ -177,7 +180,7 @@ TNext == \/ TEval
 \* after exit(1) the process may only be followed by its fini record or a reset
 ExitedQuiet == status = "exited" => (l > Len(Log) \/ Log[l].op \in {"fini", "reset"})
 
-TInit0 == M!Init0 /\ l = 1 /\ pairs = <<>> /\ acc = <<>> /\ hp = 0
+TInit0 == M!Init0 /\ l = 1 /\ pairs = <<>> /\ acc = <<>> /\ hp = 0 /\ TLCSet(11, <<>>)
 TSpec  == TInit0 /\ [][TNext]_tvars
 
 \* acceptance: every line consumed
